@@ -109,7 +109,7 @@ Definition hdr_op (what fld : N) (raw : list N) (v : N) : obs :=
          | Some f => if (length raw =? struct_len fld)%nat then XBytes (set_field f raw v) else XBad
          | None => XBad end
   | 2 => if (length raw =? 4)%nat then
-           XVal (match transport_new_from_buf raw v with Some _ => 1 | None => 0 end) else XBad
+           XVal (match transport_new_from_buf raw (v mod 256) with Some _ => 1 | None => 0 end) else XBad   (* version: u8 *)
   | 3 => if (length raw =? 1)%nat then
            XVal (match body_header_new_from_buf raw with Some _ => 1 | None => 0 end) else XBad
   | 4 => XBytes (transport_new v)
